@@ -292,6 +292,7 @@ pub fn run(ctx: &Ctx) -> Report {
             targets.push((MAXP as i64 + d) as usize);
         }
         targets.push(MAXP + 300);
+
         // k = 2, d = 0: the last write_all chunk is exactly one full packet starting on an empty buffer
         targets.push(2 * MAXP);
         if ctx.thorough {
@@ -313,6 +314,14 @@ pub fn run(ctx: &Ctx) -> Report {
                     cases.push((t, a, bin, wl));
                 }
             }
+        }
+        // one cell of exactly 2^24-1, 2^24, 2^24+1 bytes, text (prefix 4 bytes) and binary (2 more bytes
+        // of row header for a single column)
+        for l in [MAXP, MAXP + 1, MAXP + 2] {
+            // the length prefix takes 4 bytes below 2^24 and 9 bytes from 2^24 on
+            let p = if l < (1 << 24) { 4 } else { 9 };
+            cases.push((l + p, Asm::OneCell, false, usize::MAX));
+            cases.push((l + p + 2, Asm::OneCell, true, if l == MAXP + 1 { 65_536 } else { usize::MAX }));
         }
         // mid-sized messages (neither tiny nor near 2^24) behind 0..251 queued small packets, under
         // short transport writes of several sizes: whatever batching sits between a packet and the
